@@ -496,7 +496,12 @@ def run_concurrent(case):
         bad = [(a, b) for a, b in zip(stamps, stamps[1:]) if not b > a]
         if bad:
             site = 'nfd-registerer' if fe == 'v2' else 'legacy-app'
-            how = 'same-clock-reading' if clock == 'virtual' else 'clock-ticks-mid-command'
+            # 'virtual' clock: the millisecond clock is the loop time; with a forwarder that takes >= 1 ms per reply the clock has
+            # moved on when the next command gets its turn, so equal timestamps there are NOT the same-reading case
+            if clock == 'virtual' and delay >= 1 and all('timeout' not in str(r) for r in case['replies']):
+                how = 'although-the-clock-advanced-between-commands'
+            else:
+                how = 'same-clock-reading' if clock == 'virtual' else 'clock-ticks-mid-command'
             v.append((f'C17:timestamp-not-strictly-increasing:{site}:{how}',
                       f'command timestamps in emission order {[t - int(BASE_S * 1000) for t in stamps]} (ms, relative) are not strictly increasing '
                       f'(clock script {clock}, {len(ops)} concurrent calls)'))
